@@ -802,6 +802,8 @@ impl<'a, P: ProcessRun> PubPoint<'a, P> {
         // adds randomness to visiting the repositories, reducing peak load.
         let mut items_random: Vec<_> = collected.content.iter().collect();
         items_random.shuffle(&mut rand::rng());
+        #[cfg(routinator_verif)]
+        verif_c03::order(&mut items_random, self.cert.rpki_manifest());
         let mut items = items_random.into_iter();
 
         let mut point_ok = true;
@@ -2305,3 +2307,40 @@ mod test {
     }
 }
 
+
+
+//------------ Verification hook (C03, C04, C05) ------------------------------
+// begin C03 hook (add-only; compiled only with --cfg routinator_verif)
+
+#[cfg(routinator_verif)]
+mod verif_c03 {
+    use rpki::repository::manifest::FileAndHash;
+
+    /// Replaces the random manifest iteration order by a chosen one.
+    ///
+    /// If a value `k` is queued for the injection site
+    /// `"engine.manifest_order <manifest URI>"`, the items are sorted by
+    /// file name and then rearranged into the permutation with index `k` in
+    /// the factorial number system: repeatedly, with `n` items remaining,
+    /// item `k % n` of the remaining sorted items comes next and `k`
+    /// becomes `k / n`. Without a queued value the random order stays.
+    pub fn order<F: AsRef<[u8]>, H>(
+        items: &mut Vec<FileAndHash<F, H>>, manifest: &rpki::uri::Rsync
+    ) {
+        let Some(mut k) = crate::verif::forced(
+            &format!("engine.manifest_order {manifest}")
+        ) else {
+            return
+        };
+        items.sort_by(|a, b| a.file().as_ref().cmp(b.file().as_ref()));
+        let mut rest: Vec<_> = std::mem::take(items);
+        while !rest.is_empty() {
+            let n = rest.len() as u64;
+            let i = (k % n) as usize;
+            k /= n;
+            items.push(rest.remove(i));
+        }
+    }
+}
+
+// end C03 hook
